@@ -4494,6 +4494,10 @@ def bundle_readpath(P, R, L):
     R.once(round12.cache2_cache_identity, P, R, L)
     R.clause("BSRCH-2", "BlockIter::seek keeps the cursor (no store to current_index) only on the true edge of `current key == target`")
     R.once(round12.bsrch2_block_seek_shortcut, P, R, L)
+    R.clause("PAIR-8 (skip key)", "a backward-to-forward turn of the client iterator keeps the key that is being shown as the key to skip (it is not replaced by a key read from the inner iterator)")
+    R.once(round12.pair8d_reversal_keeps_shown_key, P, R, L)
+    R.clause("PAIR-18", "a reader that makes its capture of the immutable memtable depend on the has_immutable_memtable flag needs a flag that is lowered only after the slot was emptied (conjunction of two sites; either alone is accepted)")
+    R.once(round12.pair18_flush_flag_mirrors_slot, P, R, L)
     R.clause("OWN-16", "the client iterator becomes valid only inside its two collapse loops (which apply the sequence filter and skip tombstones / shadowed versions)")
     R.once(round12.own16_client_iterator_validity, P, R, L)
 
